@@ -47,3 +47,84 @@ def build_py(spec):
         return CircuitTemplate(name=name, **kw)
 
     return circuit(spec['circuit'], spec['circuit'].get('name', 'net'), {})
+
+
+def yaml_text(spec):
+    """own YAML emitter (independent of PyRates' to_yaml)"""
+    import json
+    lines = ['%YAML 1.2', '---', '']
+
+    def val(v):
+        if isinstance(v, str):
+            return json.dumps(v)
+        if v is None:
+            return 'null'
+        if isinstance(v, bool):
+            return 'true' if v else 'false'
+        return repr(float(v)) if isinstance(v, float) else repr(v)
+    for name, o in spec['ops'].items():
+        lines += [f'{name}:', '  base: OperatorTemplate', '  equations:']
+        lines += [f'    - {json.dumps(e)}' for e in o['eqs']]
+        lines += ['  variables:'] + [f'    {k}: {val(v)}' for k, v in o['vars'].items()] + ['']
+
+    def graph(name, base, oplist):
+        out = [f'{name}:', f'  base: {base}', '  operators:']
+        if any(ov for _, ov in oplist):
+            for o, ov in oplist:
+                if ov:
+                    out += [f'    {o}:'] + [f'      {k}: {val(v)}' for k, v in ov.items()]
+                else:
+                    out += [f'    {o}: {{}}']
+        else:
+            out += [f'    - {o}' for o, _ in oplist]
+        return out + ['']
+    for name, ol in spec['node_tpls'].items():
+        lines += graph(name, 'NodeTemplate', ol)
+    for name, ol in (spec.get('edge_tpls') or {}).items():
+        lines += graph(name, 'EdgeTemplate', ol)
+    counter = [0]
+    defs = []
+
+    def circuit(c, siblings):
+        name = f"Circ{counter[0]}_{c.get('name', 'net')}"
+        counter[0] += 1
+        out = [f'{name}:', '  base: CircuitTemplate']
+        if c.get('nodes'):
+            out += ['  nodes:'] + [f'    {l}: {t}' for l, t in c['nodes'].items()]
+        if c.get('circuits'):
+            subs = {}
+            for l, sub in c['circuits'].items():
+                subs[l] = subs[sub['same_as']] if 'same_as' in sub else circuit(sub, subs)
+            out += ['  circuits:'] + [f'    {l}: {n}' for l, n in subs.items()]
+        out += ['  edges:']
+        if c.get('edges'):
+            for s, t, tpl, attrs in c['edges']:
+                a = ', '.join(f'{json.dumps(k)}: {val(v)}' for k, v in (attrs or {}).items())
+                out += [f'    - [{json.dumps(s)}, {json.dumps(t)}, {tpl if tpl else "null"}, {{{a}}}]']
+        else:
+            out[-1] = '  edges: []'
+        defs.append(out + [''])
+        return name
+    top = circuit(spec['circuit'], {})
+    for d in defs:
+        lines += d
+    return '\n'.join(lines) + '\n', top
+
+
+def build_yaml(spec, fname='ymod'):
+    from pyrates import CircuitTemplate
+    text, top = yaml_text(spec)
+    with open(f'{fname}.yaml', 'w') as f:
+        f.write(text)
+    return CircuitTemplate.from_yaml(f'{fname}/{top}')
+
+
+def build_roundtrip(spec, fname='rt'):
+    """python classes -> to_yaml -> from_yaml (fresh caches in between)"""
+    from pyrates import CircuitTemplate, clear_frontend_caches
+    c = build_py(spec)
+    name = c.name
+    c.to_yaml(f'{fname}.yaml')
+    del c
+    clear_frontend_caches()
+    return CircuitTemplate.from_yaml(f'{fname}/{name}')
